@@ -21,7 +21,11 @@ CLAIM = dict(
           "of every stage) must be equal across patterns - this is the evidence for blindness outside the modelled engines."),
     note=("CursorBlind/SpacingBlind are hypotheses of the Layer A theorems; for the Layer B engine models (F0 main pass, multipass "
           "stage model) they are PROVED (LouProofs/CurBlind.lean: translate_cursor_blind, modelEngine_blind), so model_optargs holds "
-          "with no hypothesis; for engines outside the models blindness is what the 32-pattern runs test."),
+          "with no hypothesis; the same for the main pass with context rules (CurBlindC: engineFor_blind, whole_call_optargs) and for "
+          "back-translation (C10Back: back_optargs_arrays for any engine, back_optargs_cursor for blind engines; CurBlindB: every "
+          "modelled backward engine is blind, whole_call_back_optargs). The whole call computed by the model alone (MCALL) is compared "
+          "with the implementation under all 32 presence patterns on composite generated tables; for engines outside the models "
+          "blindness is what the 32-pattern runs test."),
     technique="Lean 4 proof over the driver model + exhaustive 32-pattern cross-equality on real runs",
     design="DESIGN.md §7 C10")
 
